@@ -156,3 +156,81 @@ func (a *aofRun) rewriteConc(i int) (int, bool) {
 	a.concWriters = false
 	return consumed, ok
 }
+
+// writePair (C02, profile pairs) runs two blind writes to the same key concurrently on two connections that
+// have the same database selected; the dice interleave handler steps, store-lock acquisitions and the logging
+// hooks of the two. Both are acknowledged; the process is then killed at once and restarted: the log must
+// reproduce the dataset the server held, i.e. the commands must be logged in the order they took effect.
+func (a *aofRun) writePair(opA, opB Op) bool {
+	s := a.s
+	ca := a.client(opA)
+	db := a.embdb
+	if ca.TCP {
+		db = a.tcpdb
+	}
+	cb := s.NewTCPClient(a.inst, fmt.Sprintf("g%dp%d", a.gen, len(a.names)))
+	if db != 0 {
+		cb.DoSync("SELECT", fmt.Sprint(db))
+	}
+	wasSites, wasFilter, wasPass := s.sites, s.siteFilter, s.passAll.Load()
+	s.sites, s.siteFilter = nil, nil
+	s.passAll.Store(false)
+	restore := func() {
+		s.sites, s.siteFilter = wasSites, wasFilter
+		s.passAll.Store(wasPass)
+	}
+	var ra, rb *Result
+	a.names = append(a.names, strings.ToUpper(opA.Args[0])+"||"+strings.ToUpper(opB.Args[0]))
+	ca.Start(opA.Args, func(r Result) { ra = &r })
+	cb.Start(opB.Args, func(r Result) { rb = &r })
+	last := a.states[len(a.states)-1]
+	for step := 0; step < 2000; step++ {
+		parked := s.ParkedTasks()
+		if len(parked) == 0 {
+			if ra != nil && rb != nil {
+				break
+			}
+			s.Advance(time.Millisecond)
+			s.Settle()
+			if len(s.ParkedTasks()) == 0 && step > 50 {
+				break
+			}
+			continue
+		}
+		tk, stuck := PickFair(parked, a.dice.Next(len(parked)), 300)
+		s.noteChoice(len(parked), tk.Site)
+		if stuck {
+			restore()
+			a.fail("livelock/"+tk.Site, fmt.Sprintf("%q || %q: task t%d spun %d times at %s", opA.Args, opB.Args, tk.ID, tk.Spins, tk.Site))
+			return false
+		}
+		s.Release(tk)
+		if cur := a.dump(); !mapsEqual(cur, last) {
+			a.states = append(a.states, cur)
+			last = cur
+		}
+	}
+	s.DrainAll(2000)
+	restore()
+	if ra == nil || rb == nil {
+		a.fail("pair/never-answered", fmt.Sprintf("%q || %q: a command was never answered", opA.Args, opB.Args))
+		return false
+	}
+	for _, r := range []*Result{ra, rb} {
+		if r.Panic != "" {
+			a.fail("panic/"+topRepoFrame(r.Panic), r.Panic)
+			return false
+		}
+	}
+	a.acked += 2
+	if cur := a.dump(); !mapsEqual(cur, last) {
+		a.states = append(a.states, cur)
+	}
+	a.syncedUp = len(a.states) - 1
+	a.pairProbe = true
+	a.names = append(a.names, "probe-restart")
+	a.disk.CrashNow("kill")
+	ok := a.recover(a.nextImage(a.disk.Image), len(a.states)-1, nil, "kill right after two concurrent writes")
+	a.pairProbe = false
+	return ok
+}
